@@ -66,7 +66,7 @@ class Kernel:
         self.policy = sched.get('policy', 'random')
         self.starve = sched.get('starve')  # task id that is only picked when nothing else is ready
         self.quantum_us = quantum_us        # coarse clock: time() is rounded down to this quantum
-        self.clock_jump = None              # (at_us, delta_us) one forward jump of the wall clock
+        self.clock_jump = None              # (at_us, delta_us) one jump of the wall clock, forwards or backwards
         self.wall_offset = 0
         self.tasks = []
         self.current = None
